@@ -139,6 +139,18 @@ def observe(case, seed):
         def run():
             h = mk()
             items.append(["same", kind, dump(h.body), sorted(h.genes), bool(g == h)])
+            # a rule obtained through a round trip must also BEHAVE like the original under the in-place
+            # transformers (gene removal): same remaining genes, same Boolean function
+            for ko in case.get("Ks", [])[:2]:
+                a, b = g.copy(), h.copy()
+                for x in (a, b):
+                    _GeneRemover(set(ko)).visit(x)
+                    if not hasattr(x, "body"):
+                        x.body = None
+                ga, gb = sorted(a.genes), sorted(b.genes)
+                ok = ga == gb and all(bool(a.eval(set(k))) == bool(b.eval(set(k))) for k in subsets(ga, rng, 16))
+                if not ok:
+                    items.append(["raised", "remove-after-same%d" % kind, "NotEquivalent"])
         guarded("same%d" % kind, run)
 
     def via_reaction():
@@ -166,7 +178,10 @@ def observe(case, seed):
         rx = Reaction("R1")
         m.add_reactions([rx])
         rx.gene_reaction_rule = text
-        remove_genes(m, list(ko), remove_reactions=bool(rr))
+        # the genes to remove in one of the documented argument forms: list / set of identifiers or Gene objects
+        form = rng.randrange(4)
+        arg = [list(ko), set(ko), [m.genes.get_by_id(x) for x in ko], {m.genes.get_by_id(x) for x in ko}][form]
+        remove_genes(m, arg, remove_reactions=bool(rr))
         kept = rx in m.reactions
         items.append(["removeM", bool(rr), ko, kept, dump(rx.gpr.body) if kept else None,
                       sorted(x.id for x in rx.genes) if kept else [], sorted(x.id for x in m.genes)])
